@@ -22,6 +22,7 @@ from . import refcodec
 class StubDUL(object):
     instances = []
     preload = None          # items for the script of the next stub created
+    preload_on_empty = None  # on_empty callback for the next stub created
 
     def __init__(self, store_in_file=None, get_file_cb=None, dul_socket=None,
                  max_pdu_length=65536):
@@ -39,6 +40,9 @@ class StubDUL(object):
         if StubDUL.preload:
             self.script.extend(StubDUL.preload)
             StubDUL.preload = None
+        if StubDUL.preload_on_empty is not None:
+            self.on_empty = StubDUL.preload_on_empty
+            StubDUL.preload_on_empty = None
         StubDUL.instances.append(self)
 
     # -- documented provider interface
@@ -95,6 +99,8 @@ def stubbed():
     saved = mod.DULServiceProvider
     mod.DULServiceProvider = StubDUL
     StubDUL.instances = []
+    StubDUL.preload = None
+    StubDUL.preload_on_empty = None
     try:
         yield StubDUL
     finally:
